@@ -209,14 +209,18 @@ class Impl(object):
                 U.delUser(u.id)
                 return self.err(e)
         if k == 'load':
-            u = ircdb.IrcUser(name=op[2], secure=bool(op[3])); u.id = op[1]
-            for m in op[4]:
-                u.hostmasks.add(m)
+            # one record of users.conf through the real reader callbacks (IrcUserCreator: user / name / secure / hostmask
+            # lines, then finish(), which is where a record whose masks collide is stripped of them)
+            ircdb.IrcUserCreator.u = None            # class-level scratch record of the creator
+            cr = ircdb.IrcUserCreator(U)
             try:
-                U.setUser(u); return 'ok'
-            except ValueError:
-                u.hostmasks.clear()
-                return self.unit(U.setUser, u)
+                cr.user(str(op[1]), 1); cr.name(op[2], 2); cr.secure(repr(bool(op[3])), 3)
+                for n_, m in enumerate(op[4]):
+                    cr.hostmask(m, 4 + n_)
+                cr.finish()
+                return 'ok'
+            finally:
+                ircdb.IrcUserCreator.u = None
         if k == 'deluser':
             return self.unit(U.delUser, op[1])
         u = U.users.get(op[1])
@@ -375,7 +379,7 @@ def gen_history(r, hostile=False):
         elif x < 0.57:
             i = r.choice([someid(), nxt + 1])
             if i == nxt + 1: nxt += 1; ids.append(nxt)
-            ops.append(('load', i, name(), r.randint(0, 1), [pat() for _ in range(r.randint(0, 3))]))
+            ops.append(('load', i, name() or 'anon', r.randint(0, 1), [pat() for _ in range(r.randint(0, 3))]))
         elif x < 0.60:
             i = someid(); ops.append(('deluser', i))
             if i in ids and r.random() < 0.9: ids.remove(i)
@@ -399,6 +403,9 @@ def logout_corpus():
            ('logout', 1), ('lookup', 'zed!z@z'), ('identify', 1, 'zed!z@z'), ('lookup', 'zed!z@z'), ('unidentify', 1), ('lookup', 'zed!z@z'), ('dump',)]
     yield [('reset', 10), ('register', 'alice', None), ('identify', 1, 'zed!z@z'), ('tick', 8), ('identify', 1, 'zed!z@z'), ('tick', 5),
            ('lookup', 'zed!z@z'), ('tick', 6), ('lookup', 'zed!z@z'), ('dump',)]
+    # users.conf with two accounts whose masks have a hostmask in common (seeded C04-r4m3): the later one loses its masks
+    yield [('reset', 0), ('load', 1, 'ann', 0, ['ann*!*@*.example']), ('load', 2, 'bea', 0, ['*bea!*@*.example', 'bea!*@home']),
+           ('dump',), ('lookup', 'annbea!x@y.example'), ('lookup', 'bea!b@home'), ('load', 3, 'cat', 0, ['ANN*!*@*']), ('lookup', 'annie!a@b'), ('dump',)]
     # two logins of one account cached far apart, then enough other senders that a cache which gave up entries one by one
     # would have dropped the older login's entry and the account's reverse entry but not the younger login's
     ops = [('reset', 0), ('register', 'pool', '*!*@*.pool.example'), ('register', 'alice', None),
